@@ -287,6 +287,8 @@ func (m *Mast) flush(ctx context.Context) (string, error) {
 		return "", fmt.Errorf("no persistence mechanism set; set RemoteConfig.StoreImmutablePartsWith")
 	}
 	if m.root == nil {
+		// an emptied tree: persisting it makes it clean again
+		m.root = emptyNodePointer(int(m.branchFactor))
 		return "", nil
 	}
 	node, err := m.load(ctx, m.root)
@@ -728,6 +730,10 @@ func (m *Mast) Clone(ctx context.Context) (Mast, error) {
 
 // IsDirty signifies that in-memory values have been Set() or merged that haven't been Save()d.
 func (m *Mast) IsDirty() bool {
+	if m.root == nil {
+		// only deleting the last entry leaves no top node at all
+		return true
+	}
 	if node, ok := m.root.(*mastNode); ok {
 		return node.dirty
 	}
